@@ -1,6 +1,6 @@
 CONSTANTS
   NConns = 2
-  MaxReq = 2
+  MaxReq = 3
   TokenCfgs = {"none", "one", "two"}
   Permits = {0, 1}
   ReqToks = {"absent", "t1", "t2", "prefix", "empty"}
